@@ -915,8 +915,9 @@ def run_methods(case, seed, R):
 # synthesis
 
 PSD_PARAMS = {
-    'abc': [{'a': 1.0, 'b': 0.5, 'c': 2.0}, {'a': 1e4, 'b': 0.01, 'c': 3.5}],
-    'ab': [{'a': 1.0, 'b': 2.0}, {'a': 250.0, 'b': 1.55}],
+    'abc': [{'a': 1.0, 'b': 0.5, 'c': 2.0}, {'a': 1e4, 'b': 0.01, 'c': 3.5},
+            {'a': 1e-20, 'b': 0.5, 'c': 2.0}, {'a': 1e-30, 'b': 0.01, 'c': 3.5}, {'a': 1e24, 'b': 0.5, 'c': 2.0}],      # SI-unit amplitudes (m^2 m^2) and huge ones
+    'ab': [{'a': 1.0, 'b': 2.0}, {'a': 250.0, 'b': 1.55}, {'a': 1e-22, 'b': 2.0}, {'a': 1e-30, 'b': 1.55}, {'a': 1e20, 'b': 2.0}],
 }
 
 
@@ -1636,6 +1637,10 @@ def plan(tier, seed):
                    for n in ((8, 9, 16) if quick else (8, 9, 16, 17, 32))
                    for mk in SYNTH_MASKS for fam in ('abc', 'ab') for pi in (0, 1)
                    for rms in (1.0, 3.7) for size in sizes]
+    # magnitude dimension: unnormalised realisations of ~1e-10 .. 1e-15 and 1e12, requested RMS in SI units and huge (the rescale to the
+    # requested RMS is a ratio, so it must be exact at every magnitude); masks: none, binary circle, fractional
+    synth_cases += [{'samples': n, 'mask': mk, 'psd': fam, 'params': pi, 'rms': rms, 'size': 10.0}
+                    for n in (8, 9) for mk in [SYNTH_MASKS[0], SYNTH_MASKS[1], SYNTH_MASKS[-1]] for fam in ('abc', 'ab') for pi in (2, 3, 4) for rms in (5e-9, 1.0, 2.5e7)]
     g_inits = [{'n0': 12, 'n1': 13, 'border': [1, 3, 2, 0]}, {'n0': 12, 'n1': 12, 'border': [2, 0, 1, 3]}] + ([] if quick else [{'n0': 11, 'n1': 14, 'border': [2, 2, 3, 3]}, {'n0': 30, 'n1': 33, 'border': [0, 3, 2, 1]}])
     g_depth = 4
     rs = lambda: reset_executors(64)   # noqa
